@@ -978,6 +978,7 @@ def cover(o, opts):
 def run_symbolic(h, tier="quick", stubs=None):
     """Explore + discharge one harness.  Returns a JSON-able dict."""
     opts = dict(h.opts)
+    opts.setdefault("max_explore_s", 240 if tier == "quick" else 1200)
     holder = {}
 
     def factory(c):
@@ -1002,6 +1003,7 @@ def run_symbolic(h, tier="quick", stubs=None):
     per = {n: {"instances": 0, "unsat": 0, "sat": 0, "unknown": 0, "vacuous": 0, "backends": {}, "seconds": 0.0,
                "models": [], "notes": []} for n in h.ensures}
     cover_cache = {}
+    t_dis = time.time()
     for o in res.obls:
         if o.name == explore.NORAISE:
             o.name = f"{h.name}.noraise"
@@ -1010,7 +1012,12 @@ def run_symbolic(h, tier="quick", stubs=None):
             o.name = f"{h.name}.domain"
         rec = per[o.name]
         rec["instances"] += 1
-        d = discharge(o, inputs, opts, scale)
+        budget = opts.get("max_discharge_s", 400 if tier == "quick" else 1800)
+        if time.time() - t_dis > budget or (rec["sat"] >= 3 and rec["unknown"] + rec["sat"] >= 6):
+            # the harness's solver budget is spent (or this obligation is already refuted on several paths): no further solver calls for it
+            d = {"verdict": "unknown", "seconds": 0.0, "backend": "budget"}
+        else:
+            d = discharge(o, inputs, opts, scale)
         rec["seconds"] += d["seconds"]
         rec["backends"][d["backend"]] = rec["backends"].get(d["backend"], 0) + 1
         if d["verdict"] == "unsat":
